@@ -109,7 +109,8 @@ claim('C20', 'proof',
       'Escape-flow typing of the tree view: `object_key`, `summary`, `simple_value` and `tooltip` are executed symbolically with every piece of user data '
       '(value, keys, names, parent) as opaque RAW values; every argument reaching an HTML sink (Html.element tag / inner_html / css classes / attributes, '
       'Html + operand, Html.write) is shown to be a literal, a number, an identifier, escaped text or library-built Html on every path and every option '
-      'combination; `Html.escape` sends text through html.escape. Rendering writes nothing to the value. Well-formedness of the whole document, presence '
+      'combination; `Html.escape` sends text through html.escape; `Html.element` itself writes every attribute value (css classes, inline styles, keyword '
+      'properties) into the open tag only after html.escape AND the replacement of the double quote, for every combination of given / absent attributes. Rendering writes nothing to the value. Well-formedness of the whole document, presence '
       'of every key/leaf and the remaining render methods (`complex_value`, `content`, controls) are covered by the bounded tier with a strict tokenizer.',
       'Trusted: engine; html.escape removes < > & " \' (stdlib); class names are identifiers; view options (title, colors, css classes) are not user data.',
       'contract-based deductive verification (pyvc escape-flow/trace obligations) + bounded stand-in (strict HTML tokenizer)', 'DESIGN.md 5/C20')
@@ -126,7 +127,8 @@ claim('C01', 'proof',
       'contract-based deductive verification (pyvc small-heap + trace obligations) + bounded stand-in over histories', 'DESIGN.md 5/C01')
 claim('C05', 'proof',
       'Persistence kernel: `MemoryFileSystem._internal_path` strips exactly the prefix for every path (string VC), hence distinct paths never share a file; '
-      'opening an existing in-memory file for writing presents an empty buffer, so a read returns exactly the last content written. Codec kernel: the real '
+      'opening an existing in-memory file for writing presents an empty buffer positioned at 0, and opening it for reading presents the stored content positioned at 0, '
+      'wherever an earlier never-closed handle left the shared buffer (symbolic old position), so a read returns exactly the last content written. Codec kernel: the real '
       '`json_conversion.to_json` and `from_json` run back to back on a list / tuple of any length whose children round-trip (induction hypothesis) give a sequence of '
       'the same kind with exactly the same children, for every list whose first child does not encode as the tuple marker and every non-empty tuple, and raise only in '
       'those two classes (the unrestricted clauses are stated, fail, and are the known findings marker-collision / empty-tuple). `Functor._sym_clone` (what copy.deepcopy '
